@@ -48,6 +48,12 @@ def _worker(job):
     except Exception as ex:  # engine bug: never a verdict
         res = []
         err = 'engine error: %s\n%s' % (ex, traceback.format_exc()[-1500:])
+    if _OPTS.get('env_pairs') and getattr(e, 'path_records', None) and not e.leftover:
+        try:
+            for msg, model in layout.env_pairs(e):
+                res.append(('violation', msg, model))
+        except Exception as ex:
+            err = (err or '') + ' env_pairs: %r' % (ex,)
     st = dict(e.stats)
     st['wall'] = time.time() - t0
     st['host_reads'] = e.host_reads
